@@ -751,3 +751,23 @@ pub fn plain_text(rng: &mut Rng, n: usize) -> Vec<u8> {
     }
     out.into_bytes()
 }
+
+
+/// Rewrite the start line numbers of a unified hunk header (`@@ -a,b +c,d @@ rest`), keeping the
+/// counts: used to give repeated hunks ascending, distinct positions.
+pub fn renumber_hunk_header(text: &str, start: usize) -> String {
+    if !text.starts_with("@@ -") {
+        return text.to_string();
+    }
+    let rest = &text[4..];
+    let (old, after_old) = match rest.split_once(" +") {
+        Some(x) => x,
+        None => return text.to_string(),
+    };
+    let (new, tail) = match after_old.split_once(" @@") {
+        Some(x) => x,
+        None => return text.to_string(),
+    };
+    let count = |s: &str| s.split_once(',').map(|(_, c)| format!(",{}", c)).unwrap_or_default();
+    format!("@@ -{}{} +{}{} @@{}", start, count(old), start + 1, count(new), tail)
+}
